@@ -194,5 +194,56 @@ CLAIMED.update({
         "technique": "Coq erasure theorem on the model + differential execution with/without inspection calls on the implementation",
     },
 })
+CLAIMED.update({
+    "C04": {
+        "text": "Props/C04.v proves for the assembler model after tokenisation: pseudo-instruction expansion is local (depends only on the "
+                "line's tokens and the variable table), idempotent, of length 1-3; every label (stand-alone, in-line incl. on lines that "
+                "expand to several instructions — defect D2, fixed — and at the end of the program) denotes 4 x (instructions emitted "
+                "before it); instruction k is instantiated at address 4k; branch/jal operands as label, label+offset or number give the "
+                "stated immediates (branch numbers relative, jal numbers absolute, odd numbers and unknown labels rejected with the "
+                "line); the operand-to-field mapping of every class; ABI and xN names denote the same registers; nop/mv expansions. "
+                "pyparsing is outside the model: the harness feeds the model the REAL tokenizer's output. The implementation is compared "
+                "with the model (every field and printed form of every instruction, lower memory, error class and line), with an "
+                "independent reference assembler written from the documented syntax, and across three random spellings of each program.",
+        "note": NOTE_COMMON + "Spelling independence (case, blanks, comments, number bases) is established by the metamorphic correspondence, not proved.",
+        "technique": TECH,
+    },
+    "C05": {
+        "text": "Props/C05.v proves: the value of every literal shape (decimal/hex/binary, sign; exactly which literals int() rejects); the "
+                "lui/addi split is correct for EVERY integer (carry at 0x800, wrap of the upper part); executing the expansion of "
+                "'li rd, c' leaves c mod 2^32 in rd and changes nothing else, for every c; la / load / store by name[i] address element i "
+                "(base + i x element size, .zero indexed by word — defect D4, fixed); the data layout (declaration order from 2^14, "
+                "4-byte alignment, strides, little-endian values mod 2^width, strings + NUL, .zero n = n words, later declarations never "
+                "overwrite earlier ones — which exposed defect D7, fixed); independence of the segment order; and the help page's program "
+                "by evaluation. Tied to the code by comparing assembled instructions and every byte of lower memory with the model and "
+                "with an independent layout; by executing li for every low-12-bit pattern x boundary upper parts (thorough) and "
+                "la/load/store by name for every element on the implementation; and by running the help page's example as it stands in /repo.",
+        "note": NOTE_COMMON + "The help-page example is read from /repo/webgui at run time (its comment was off by one: D6, fixed).",
+        "technique": TECH,
+    },
+    "C14": {
+        "text": "Props/C14.v proves for every encodable instruction of every class except FENCE, every register and immediate and every "
+                "address: the model's printed form is the rendering of a token record that instantiates, at the same address, to the very "
+                "same instruction (branch offsets relative, jal printed as absolute target, signed U-type, hexadecimal CSR numbers), and "
+                "that a listing re-assembles to itself. The printer is tied to __repr__ by string equality on operand grids; the round trip "
+                "is checked on the implementation through the real tokenizer and assembler (print, load at the same address, compare class, "
+                "fields and printed form), and listings of random programs are re-assembled.",
+        "note": NOTE_COMMON + "Tokenisation of the printed text is performed by the real tokenizer in the harness, not modelled.",
+        "technique": TECH,
+    },
+    "C15": {
+        "text": "Proof (partial: pyparsing is outside any model). Props/C15.v proves for the RISC-V assembler model, and Props/C19.v for the TOY "
+                "one, that for EVERY token list the outcome is success, a parser error whose line number is one of the input's lines, or "
+                "the memory-size/address error, and that no uncaught exception is possible for token shapes the grammar produces; that "
+                "every literal int() rejects is reported as a syntax error of its line (defect D3, fixed); and that every run-time fault "
+                "of the single-cycle and five-stage models carries the address and instruction of the faulting slot, stalled or not. The "
+                "claim about arbitrary TEXT (tokenizer raising only ParseException, termination) is carried by generated malformed "
+                "inputs: grammar-derived programs with injected faults, token soups, byte soups with Unicode line separators, for both "
+                "assemblers: exception class in the allowed set, line number within the text, no hang; plus faulting programs in both "
+                "modes compared with the model.",
+        "note": NOTE_COMMON + "'No other exception for any text' is a universal negative about pyparsing + glue that is sampled, not proved.",
+        "technique": "Coq proof of typed outcomes of the assembler models + generated malformed inputs on the implementation",
+    },
+})
 _PENDING = "check not built yet (model/theorems under construction); see DESIGN.md section 9"
 NOT_APPLICABLE = {f"C{i:02d}": _PENDING for i in range(1, 21) if f"C{i:02d}" not in CLAIMED}
